@@ -267,7 +267,7 @@ func genC18(t *rapid.T, tier string) C18Case {
 		c.Repoint = rapid.IntRange(0, 3).Draw(t, "repoint") == 0
 	}
 	if c.Backend == "file" {
-		kinds = append(kinds, "filefault", "filefault", "fileaway")
+		kinds = append(kinds, "filefault", "filefault", "fileaway", "otherdir", "otherdir")
 	}
 	no := rapid.IntRange(1, 14).Draw(t, "nops")
 	for i := 0; i < no; i++ {
@@ -285,6 +285,8 @@ func genC18(t *rapid.T, tier string) C18Case {
 func runC18(c C18Case, o *run.Obs) error {
 	ctx := context.Background()
 	var p mast.Persist
+	var p2 mast.Persist
+	model2 := map[string][]byte{}
 	var fake *fakeS3
 	fileDir := ""
 	desc := fmt.Sprintf("[backend=%s bucket=%q prefix=%q]", c.Backend, c.Bucket, c.Prefix)
@@ -377,6 +379,8 @@ func runC18(c C18Case, o *run.Obs) error {
 		when := fmt.Sprintf("op %d %s", i, op.Kind)
 		// a name is bound to one byte string (content addressing): later writes of a known name reuse its bytes
 		if old, ok := model[name]; ok {
+			payload = old
+		} else if old, ok := model2[name]; ok {
 			payload = old
 		}
 		switch op.Kind {
@@ -508,6 +512,39 @@ func runC18(c C18Case, o *run.Obs) error {
 				return fmt.Errorf("%s %s: Load(%q) started after a successful Store of that name (while an older Load of it was still pending) returned %d bytes, err=%v; %d bytes were written", desc, when, name, len(second.b), second.err, len(payload))
 			}
 			o.Label("load-overlapping-a-write")
+		case "otherdir":
+			// a second file store on ANOTHER directory in the same process (e.g. a replica): what one of them holds says
+			// nothing about the other
+			if fileDir == "" {
+				continue
+			}
+			if p2 == nil {
+				d2, err := os.MkdirTemp(filepath.Dir(fileDir), "c18-replica-")
+				if err != nil {
+					return fmt.Errorf("harness: %w", err)
+				}
+				defer os.RemoveAll(d2)
+				p2 = file.NewPersistForPath(d2)
+			}
+			if op.N%2 == 0 {
+				// first into the primary directory (unless it is there already), then into the other one
+				if err := p.Store(ctx, name, payload); err != nil {
+					return fmt.Errorf("%s %s: Store(%q) failed: %v", desc, when, name, err)
+				}
+				model[name] = payload
+			}
+			if _, there := model2[name]; !there {
+				if b, err := p2.Load(ctx, name); err == nil {
+					return fmt.Errorf("%s %s: the second directory never received %q, yet its store loads %d bytes", desc, when, name, len(b))
+				}
+			}
+			if err := p2.Store(ctx, name, payload); err != nil {
+				return fmt.Errorf("%s %s: Store(%q) into the second directory failed: %v", desc, when, name, err)
+			}
+			model2[name] = payload
+			if b, err := p2.Load(ctx, name); err != nil || !bytes.Equal(b, payload) {
+				return fmt.Errorf("%s %s: after a successful Store(%q) into a second directory (another file store in the same process) its Load returned %d bytes, err=%v; %d bytes were written", desc, when, name, len(b), err, len(payload))
+			}
 		case "fileaway":
 			// the node file of a written name is out of reach for a moment (moved away and back, as on a remounted or
 			// briefly unavailable volume): a Load meanwhile may fail, but once the file is back the name loads again
